@@ -536,7 +536,7 @@ Section SplinePipeline2.
     assert (N0 : g_N g0 = g_N c).
     { replace g0 with (fst (ignore_self_loops c)) by (rewrite E0; reflexivity). apply ignore_self_loops_N. }
     unfold phase1. rewrite N0, L1. cbn [Nat.eqb bind].
-    unfold phase2. rewrite N0, L1. cbn [Nat.eqb bind].
+    unfold phase2, assign_layers. rewrite N0, L1. cbn [Nat.eqb bind].
     destruct (init_layer_slices g0) as [g2|] eqn:SL; cbn [bind]; [|reflexivity].
     destruct (slices_facts g0 g2 SL) as (_ & _ & N2 & _).
     unfold phase3_wmedian. rewrite N2, N0, L1. cbn [Nat.eqb bind].
